@@ -2721,6 +2721,7 @@ impl Connection {
                     return Ok(());
                 }
 
+                let mut datagrams_unblocked = false;
                 if self.side.is_client() {
                     // Client-only because server params were set from the client's Initial
                     let params = self.crypto.transport_parameters()?.ok_or_else(|| {
@@ -2739,6 +2740,12 @@ impl Connection {
 
                             // Discard already-queued frames
                             self.spaces[SpaceId::Data].pending = Retransmits::default();
+
+                            // Discard datagrams that are still queued: they were admitted under the
+                            // remembered `max_datagram_frame_size`, which the peer may no longer offer
+                            self.datagrams.outgoing.clear();
+                            self.datagrams.outgoing_total = 0;
+                            datagrams_unblocked = mem::take(&mut self.datagrams.send_blocked);
 
                             // Discard 0-RTT packets
                             let sent_packets =
@@ -2766,6 +2773,9 @@ impl Connection {
                 }
 
                 self.events.push_back(Event::Connected);
+                if datagrams_unblocked {
+                    self.events.push_back(Event::DatagramsUnblocked);
+                }
                 self.state = State::Established;
                 trace!("established");
                 // The loss detection timer ignores the Data space while handshaking: now that the
